@@ -99,6 +99,15 @@ class LazyViews:
                 if isinstance(n, ast.Assign):
                     for t in n.targets:
                         changed |= self._bind(t, n.value)
+                elif isinstance(n, (ast.For, ast.comprehension)) \
+                        and isinstance(n.iter, (ast.Tuple, ast.List)) \
+                        and isinstance(n.target, ast.Name) \
+                        and n.target.id not in self.views \
+                        and any(self.is_view(e) for e in n.iter.elts):
+                    # `for side in (iterable(lhs), iterable(rhs))`: the
+                    # variable ranges over the views themselves
+                    self.views.add(n.target.id)
+                    changed = True
                 elif isinstance(n, ast.FunctionDef) and n is not self.fn:
                     # nested generator iterating a view
                     if n.name not in self.nested_gens and \
